@@ -121,5 +121,40 @@ func cmdAudit() int {
 		}
 	}
 	fmt.Printf("%d clause/property gaps\n", gaps)
+	// fields of declared types that no contract file classifies (frame and ownership checks treat
+	// them as unknown-to-the-contracts)
+	var tns []string
+	for tn := range p.specs.Types {
+		tns = append(tns, tn)
+	}
+	sort.Strings(tns)
+	for _, tn := range tns {
+		ts := p.specs.Types[tn]
+		nt, ok := p.named[tn]
+		if !ok {
+			continue
+		}
+		st, ok := nt.Underlying().(*types.Struct)
+		if !ok {
+			continue
+		}
+		var un []string
+		for i := 0; i < st.NumFields(); i++ {
+			f := st.Field(i).Name()
+			ft := st.Field(i).Type().String()
+			if strings.HasPrefix(ft, "sync.") {
+				continue
+			}
+			_, g := ts.Guarded[f]
+			_, so := ts.SubObjects[f]
+			_, dt := ts.DynType[f]
+			if !g && !so && !dt && !ts.Atomic[f] && !ts.Immutable[f] && !ts.AtomicCell[f] && !ts.Confined[f] {
+				un = append(un, f)
+			}
+		}
+		if len(un) > 0 {
+			fmt.Printf("UNCLASSIFIED %s: %s\n", tn, strings.Join(un, ", "))
+		}
+	}
 	return 0
 }
